@@ -258,6 +258,12 @@ func PatchLinker(goRoot, goVersion, cacheDir, tempDir string) (string, func(), e
 	if err := os.Remove(outputLinkPath + versionExt); err != nil && !os.IsNotExist(err) {
 		return "", nil, err
 	}
+	// Drop the old linker as well. When cmd/go has to copy the new binary over it and is
+	// interrupted, the leftover can start with the new build ID, and the next
+	// "go build -o" would then leave that partial file alone as if it were up to date.
+	if err := os.Remove(outputLinkPath); err != nil && !os.IsNotExist(err) {
+		return "", nil, err
+	}
 
 	srcDir := filepath.Join(goRoot, "src")
 	workingDir := filepath.Join(tempDir, "linker-src")
